@@ -3,6 +3,7 @@
 // stack-safety of copy/compare/dump/destroy on deeply nested values (small fixed thread stack).
 #include "harness.hpp"
 #include <map>
+#include <sstream>
 #include "jconv.hpp"
 #include "binval.hpp"
 #include <jsoncons/json.hpp>
@@ -51,6 +52,28 @@ static bool decode_with_limit(const std::string& f, const std::vector<uint8_t>& 
     if (f == "msgpack") return accepted([&] { msgpack::decode_msgpack<json>(in, msgpack::msgpack_options{}.max_nesting_depth(limit)); }, err);
     if (f == "ubjson") return accepted([&] { ubjson::decode_ubjson<json>(in, ubjson::ubjson_options{}.max_nesting_depth(limit)); }, err);
     return accepted([&] { bson::decode_bson<json>(in, bson::bson_options{}.max_nesting_depth(limit)); }, err);
+}
+// the same input walked event by event with a pull cursor, and through the reader + decoder
+static bool cursor_with_limit(const std::string& f, const std::vector<uint8_t>& in, int limit, std::string& err) {
+    return accepted([&] {
+        std::error_code ec;
+        auto walk = [&](auto& cur) { while (!ec && !cur.done()) cur.next(ec); if (ec) throw ser_error(ec); };
+        if (f == "json") { std::string s(in.begin(), in.end()); json_string_cursor cur(s, json_options{}.max_nesting_depth(limit), ec); if (ec) throw ser_error(ec); walk(cur); }
+        else if (f == "cbor") { cbor::cbor_bytes_cursor cur(in, cbor::cbor_options{}.max_nesting_depth(limit), ec); if (ec) throw ser_error(ec); walk(cur); }
+        else if (f == "msgpack") { msgpack::msgpack_bytes_cursor cur(in, msgpack::msgpack_options{}.max_nesting_depth(limit), ec); if (ec) throw ser_error(ec); walk(cur); }
+        else if (f == "ubjson") { ubjson::ubjson_bytes_cursor cur(in, ubjson::ubjson_options{}.max_nesting_depth(limit), ec); if (ec) throw ser_error(ec); walk(cur); }
+        else { bson::bson_bytes_cursor cur(in, bson::bson_options{}.max_nesting_depth(limit), ec); if (ec) throw ser_error(ec); walk(cur); }
+    }, err);
+}
+static bool reader_with_limit(const std::string& f, const std::vector<uint8_t>& in, int limit, std::string& err) {
+    return accepted([&] {
+        json_decoder<ojson> d; std::string s(in.begin(), in.end()); std::istringstream is(s);
+        if (f == "json") { json_stream_reader r(is, d, json_options{}.max_nesting_depth(limit)); r.read(); }
+        else if (f == "cbor") { cbor::cbor_stream_reader r(is, d, cbor::cbor_options{}.max_nesting_depth(limit)); r.read(); }
+        else if (f == "msgpack") { msgpack::msgpack_stream_reader r(is, d, msgpack::msgpack_options{}.max_nesting_depth(limit)); r.read(); }
+        else if (f == "ubjson") { ubjson::ubjson_stream_reader r(is, d, ubjson::ubjson_options{}.max_nesting_depth(limit)); r.read(); }
+        else { bson::bson_stream_reader r(is, d, bson::bson_options{}.max_nesting_depth(limit)); r.read(); }
+    }, err);
 }
 template <class Enc> static void push_nested(Enc& e, const std::string& kind, long depth) {
     bool obj = kind.rfind("object", 0) == 0, decl = kind.find("undeclared") == std::string::npos;
@@ -105,6 +128,8 @@ int main(int argc, char** argv) {
             bool ok = decode_with_limit(f, in, limit, err);
             if (ok != c["accept"].as_bool()) fail(idx, c, ok ? "too-deep-accepted" : "within-limit-rejected", err);
             else if (ok) { std::string e2; if (!decode_with_limit(f, in, 1024, e2)) fail(idx, c, "rejected-with-default-limit", e2); }
+            { std::string e3; bool okc = cursor_with_limit(f, in, limit, e3); if (okc != c["accept"].as_bool()) fail(idx, c, okc ? "too-deep-accepted-by-cursor" : "within-limit-rejected-by-cursor", e3); }
+            { std::string e4; bool okr = reader_with_limit(f, in, limit, e4); if (okr != c["accept"].as_bool()) fail(idx, c, okr ? "too-deep-accepted-by-stream-reader" : "within-limit-rejected-by-stream-reader", e4); }
         } else if (k == "sibling") {
             const std::string& f = c["f"].str(); long depth = (long)c["depth"].as_int(); int limit = (int)c["limit"].as_int(); long cnt = (long)c["count"].as_int();
             auto open = bv::bytes_of(c["open"]), close = bv::bytes_of(c["close"]), item = bv::bytes_of(c["item"]);
